@@ -8,3 +8,4 @@ for c in "$@"; do
   echo "$NAME $c exit=$rc $(grep -h 'VIOLATION' seeded/$NAME/check_$c.log | head -1)"
 done
 git -C /repo checkout -- .
+(cd /verif/tools && python3 -c 'import extract; extract.regenerate()')   # Generated/ back to the unchanged tree
